@@ -52,112 +52,33 @@ def _setting_job(args):
     return key, npts, nabs, bad_missing, bad_extra
 
 
-def visit_rules(ctx, mod, short):
-    """how genhkl_base consults sysabs and which visited points it never tests.
-    -> {'crystal_system': ('param'|'literal', value), 'cell_choice': (...)}"""
-    fn = mod.func("genhkl_base")
-    where = core.loc(mod, fn)
-    callee = mod.func("sysabs")
-    cparams = [a.arg for a in callee.args.args]
-    cdefaults = dict(zip(cparams[len(cparams) - len(callee.args.defaults):], [tables.literal(d) for d in callee.args.defaults]))
-    params = {a.arg for a in fn.args.args}
-    calls = [n_ for n_ in ast.walk(fn) if isinstance(n_, ast.Call) and getattr(n_.func, "id", "") == "sysabs"]
-    if not calls:
-        raise AnalysisError("%s.genhkl_base: no call of sysabs" % short)
-    # the call whose result decides acceptance: `if sysabs(...) == 0` or `x = sysabs(...)` ... `if x == 0`
-    deciding = None
-    guard_if = None
-    for n_ in ast.walk(fn):
-        if isinstance(n_, ast.If) and isinstance(n_.test, ast.Compare) and len(n_.test.ops) == 1 and isinstance(n_.test.ops[0], ast.Eq) \
-                and isinstance(n_.test.comparators[0], ast.Constant) and n_.test.comparators[0].value == 0:
-            l_ = n_.test.left
-            if isinstance(l_, ast.Call) and l_ in calls:
-                deciding, guard_if = l_, n_
-            elif isinstance(l_, ast.Name):
-                for c_ in calls:
-                    for a_ in ast.walk(fn):
-                        if isinstance(a_, ast.Assign) and a_.value is c_ and isinstance(a_.targets[0], ast.Name) and a_.targets[0].id == l_.id:
-                            deciding, guard_if = c_, n_
-    if deciding is None:
-        raise AnalysisError("%s.genhkl_base: the test `sysabs(...) == 0` that accepts a reflection was not found" % short)
-    amap = dict(zip(cparams, deciding.args))
-    for k in deciding.keywords:
-        amap[k.arg] = k.value
-    out = {}
-    for p_ in ("crystal_system", "cell_choice"):
-        if p_ not in amap:
-            out[p_] = ("literal", cdefaults.get(p_))
-        elif isinstance(amap[p_], ast.Name) and amap[p_].id in params:
-            out[p_] = ("param", amap[p_].id)
-        elif isinstance(amap[p_], ast.Constant):
-            out[p_] = ("literal", amap[p_].value)
-        else:
-            raise AnalysisError("%s.genhkl_base: argument `%s` of sysabs is neither a parameter nor a literal" % (short, core.unparse(amap[p_])))
-    ok_args = all(out[p_] == ("param", p_) for p_ in out)
-    ok_sys = isinstance(amap.get(cparams[1]), ast.Name) and amap[cparams[1]].id == "sysconditions"
-    # the vector tested is the vector appended
-    appended = [b_["M_X"] for st_ in ast.walk(guard_if) if isinstance(st_, ast.Assign)
-                for b_ in [core.match_stmt("M_H = NP.concatenate((M_H, [M_X]))", st_, {}, mod.np_alias)] if b_]
-    tested = amap.get(cparams[0])
-    ok_vec = isinstance(tested, ast.Name) and appended and tested.id == appended[0]
-    ctx.check(ok_sys and ok_vec, "C05:visit:%s.sysabs-vector" % short,
-              "the reflection-condition test is not sysabs(<the row that is appended>, sysconditions, ...)", where)
-    if not ok_args:
-        ctx.note("%s.genhkl_base consults sysabs with crystal_system=%s, cell_choice=%s (the table analysis uses exactly these)"
-                 % (short, out["crystal_system"], out["cell_choice"]))
-    # origin skip: `if c != 1` with c a visit counter initialised once, outside every loop
-    skip = None
-    parents = {}
-    for n_ in ast.walk(fn):
-        for ch in ast.iter_child_nodes(n_):
-            parents[ch] = n_
-    p_ = guard_if
-    while p_ in parents:
-        p_ = parents[p_]
-        if isinstance(p_, ast.If) and isinstance(p_.test, ast.Compare) and isinstance(p_.test.left, ast.Name) \
-                and isinstance(p_.test.ops[0], ast.NotEq) and isinstance(p_.test.comparators[0], ast.Constant) and p_.test.comparators[0].value == 1:
-            skip = p_
-            break
-    if skip is None:
-        raise AnalysisError("%s.genhkl_base: the guard that leaves the first visited point (000) untested was not found" % short)
-    cv = skip.test.left.id
-    inits, incs, decs, others = [], [], [], []
-    for n_ in ast.walk(fn):
-        if isinstance(n_, (ast.Assign, ast.AugAssign)):
-            tg = n_.targets[0] if isinstance(n_, ast.Assign) else n_.target
-            if isinstance(tg, ast.Name) and tg.id == cv:
-                if core.match_stmt("%s = 0" % cv, n_):
-                    inits.append(n_)
-                elif core.match_stmt("%s = %s + 1" % (cv, cv), n_) or core.match_stmt("%s += 1" % cv, n_):
-                    incs.append(n_)
-                elif core.match_stmt("%s = %s - 1" % (cv, cv), n_) or core.match_stmt("%s -= 1" % cv, n_):
-                    decs.append(n_)
-                else:
-                    others.append(n_)
-    def in_loop(n_):
-        q = n_
-        while q in parents:
-            q = parents[q]
-            if isinstance(q, (ast.For, ast.While)):
-                return True
-        return False
-    def inside(n_, anc):
-        q = n_
-        while q in parents:
-            q = parents[q]
-            if q is anc:
-                return True
-        return False
-    blk = parents.get(skip)
-    sib = getattr(blk, "body", [])
-    prev_is_inc = skip in sib and sib.index(skip) > 0 and sib[sib.index(skip) - 1] in incs
-    ok_once = (len(inits) == 1 and not in_loop(inits[0]) and len(incs) == 1 and prev_is_inc
-               and all(inside(d_, skip) for d_ in decs) and not others)
-    ctx.check(ok_once, "C05:visit:%s.origin-only" % short,
-              "the counter `%s` that exempts the first visited point from the test is not initialised exactly once before the cone "
-              "loop / incremented once per visit: apexes of later cones (real reflections such as 1 2 0) are skipped too" % cv,
-              core.loc(mod, inits[0]) if inits else where, sample={"counter": cv, "initialised_in_loop": [in_loop(i_) for i_ in inits]})
-    return out
+# (Laue class, cell choice) for which the walk must be extended beyond sintlmax: frozen from the tree, one reason each
+EXTENDED_CUTOFF = {
+    ("-3", "rhombohedral"): "the 2013 fix: on rhombohedral axes g1 = (1,0,0) and g3 = (-1,-1,-1) of the lower cones are obtuse in every "
+                            "metric; rows and planes that start just outside sintlmax come back inside (e.g. 0 -5 -6 of R-3)",
+}
+
+
+def walk_rules(ctx, results, rel, short, pid="C05"):
+    """the whole genhkl_base evaluated on band models (props/hklrun.py) -> how sysabs is consulted"""
+    from props import hklrun
+    mod = core.module(rel)
+    where = core.loc(mod, mod.func("genhkl_base"))
+    by = hklrun.verdicts(results, rel)
+    if not by:
+        raise AnalysisError("%s.genhkl_base: no combination of sglib could be evaluated on a band model" % short)
+    for (L, cc, cs), v in sorted(by.items()):
+        tag = "%s:%s:%s" % (short, L, "rhombohedral" if cc == "rhombohedral" else cc)
+        ctx.check(v["ok_set"], "%s:walk:%s" % (pid, tag),
+                  "genhkl_base does not return exactly the accepted points of the cones (in the shell, not extinct, each once): %s" % v["msg"],
+                  where, sample={"Laue": L, "cell_choice": cc, "models": v["runs"], "accepted_points": v["rows"]} if (L, cc) in (("-1", "standard"), ("-3", "rhombohedral")) else None)
+        if pid == "C05":
+            ctx.check(v["syscond_ok"] and v["cell_ok"], "C05:visit:%s.arguments" % tag,
+                      "sysabs is not consulted with the caller's sysconditions / sintl not with the caller's unit cell", where)
+            if (L, cc) in EXTENDED_CUTOFF:
+                ctx.check(v["scaled"], "C05:earlyexit:%s.extended-cutoff" % tag,
+                          "the walk is no longer extended beyond sintlmax for this class (%s)" % EXTENDED_CUTOFF[(L, cc)], where)
+    return hklrun.consult_policy(by)
 
 
 def run(ctx):
@@ -166,7 +87,8 @@ def run(ctx):
     ctx.rule("syscond", "slot model x syscond x permutation schedule == extinction by the tabulated operators, on every cone point in the box")
     ctx.rule("earlyexit", "cone apex/generators pairwise non-obtuse in every conforming reciprocal metric")
     ctx.rule("expand", "genhkl_all: Rots = rot[:nuniq] and negatives, dot(hkl_row, R), stl copied, unique() de-duplication")
-    ctx.rule("visit", "sysabs is consulted on the appended row with the group's own crystal_system / cell_choice; only the very first visited point (000) is exempt")
+    ctx.rule("walk", "genhkl_base evaluated on band models returns exactly the accepted cone points (in the shell, not extinct, each once)")
+    ctx.rule("visit", "sysabs is consulted with the caller's sysconditions; the crystal_system / cell_choice it receives are the ones the table analysis uses")
     ctx.rule("rsetting", "hexagonal table conjugated by the obverse transformation == rhombohedral table (7 R groups)")
     ctx.rule("model", "slot model, schedules and cone tables are extracted from both modules; analysed once when identical, else per module")
     Nbox = 8 if ctx.tier == "quick" else 24
@@ -180,9 +102,21 @@ def run(ctx):
         ctx.saw(mod, "sysabs_unique"); ctx.saw(mod, "sysabs"); ctx.saw(mod, "genhkl_base"); ctx.saw(mod, "genhkl_all")
         am = H.AbsenceModel(rel)
         seg = tables.extract_segm(rel)
-        models[short] = (am, None, seg, visit_rules(ctx, mod, short))
+        models[short] = [am, None, seg, None]
         ctx.floor("%s condition slots" % short, len(am.slots_read()), 26)
         ctx.floor("%s cone tables" % short, seg.count(settings), 13)
+
+    # the walk itself: every combination of sglib, both modules, on band models
+    from props import hklrun
+    walk_results = hklrun.run_all([(rel, hklrun.rows_of(models[short][2], settings)) for rel, short, _tp in N.MODULES], ctx.tier)
+    nwalk = 0
+    for rel, short, _tp in N.MODULES:
+        models[short][3] = walk_rules(ctx, walk_results, rel, short)
+        if models[short][3] != {"crystal_system": ("param", "crystal_system"), "cell_choice": ("param", "cell_choice")}:
+            ctx.note("%s.genhkl_base consults sysabs with crystal_system=%s, cell_choice=%s (the table analysis uses exactly these)"
+                     % (short, models[short][3]["crystal_system"], models[short][3]["cell_choice"]))
+    ctx.extra["band_model_runs"] = len(walk_results)
+    ctx.floor("band model runs", len(walk_results), 2 * 13 * 2)
 
     def eff(visit, s):
         return (s.crystal_system if visit["crystal_system"][0] == "param" else visit["crystal_system"][1],
@@ -270,12 +204,10 @@ def run(ctx):
                                   "%s %s and %s %s of cone %d can be obtuse in a conforming %s reciprocal metric: the walk stops at the "
                                   "first point beyond sintlmax although later points of the row/plane come back inside the shell"
                                   % (labels[a], u, labels[b], v, ci, fam), "%s:%d" % (relname, hits[0]["line"]))
-    # the stopping tests themselves
+    # expansion over the point group (genhkl_all)
     for rel, short, _tp in N.MODULES:
         mod = core.module(rel)
         fn = mod.func("genhkl_base")
-        from props.hklwalk import analyse_tests
-        analyse_tests(ctx, mod, short, emit=("stops",))
         analyse_expand(ctx, mod, short)
     # ---- R settings
     P = OBVERSE
@@ -303,7 +235,7 @@ def run(ctx):
     ctx.not_decided += ["for one given real cell that violates the early-exit precondition, which reflections are lost",
                         "collision of two distinct rows under the random projection used for unique() (measure zero); "
                         "genhkl_all consumes numpy's global random state (recorded, not a violation of the returned set)",
-                        "the factor 1.1 on sintlmax for rhombohedral -3"]
+                        "the size of the factor (1.1) by which the walk is extended for rhombohedral -3"]
     ctx.assumptions += ["C04 (tables are groups)", "numpy unique/concatenate/dot"]
     return ("Slot model of sysabs_unique and the permutation schedules of sysabs extracted from both modules and compared with "
             "extinction by the tabulated operators on every cone point of the box |h|,|k|,|l| <= %d for all %d settings "
